@@ -169,6 +169,10 @@ def realign_gaf(gaf, graph, fasta, output, cores=1):
 
     seq_batch = []
     batch_size = 1000
+    import os  # verification hook, inactive unless GAFTOOLS_VERIF=1 (see /verif/MANIFEST.json)
+
+    if os.environ.get("GAFTOOLS_VERIF") == "1":
+        batch_size = int(os.environ.get("GAFTOOLS_VERIF_BATCH_SIZE", batch_size))
     gaf_file = GAF(gaf)
     priority_counter = 0
     for line in gaf_file.read_file():
